@@ -7,7 +7,7 @@ use scpi::error::Error;
 use scpi::parser::tokenizer::Token;
 use scpi::units::uom::si::f32::{Frequency, Time};
 use scpi::units::uom::si::{frequency::hertz, time::second};
-use scpi_contrib::scpi1999::NumericValue;
+use scpi_contrib::scpi1999::{NumericBuilder, NumericValue};
 
 #[derive(Clone, Copy, PartialEq, Debug)]
 enum Kw {
@@ -51,7 +51,17 @@ macro_rules! numtype {
         let rng: &mut Rng = $rng;
         bump(ctx, 1);
         // bounds: min <= max incl. min == max; default inside or absent
-        let raw: [f64; 3] = [rng.range(-1000, 1000) as f64 / 4.0, rng.range(-1000, 1000) as f64 / 4.0, rng.range(-1000, 1000) as f64 / 4.0];
+        let mut raw: [f64; 3] = [rng.range(-1000, 1000) as f64 / 4.0, rng.range(-1000, 1000) as f64 / 4.0, rng.range(-1000, 1000) as f64 / 4.0];
+        // a range open on one or both sides: bounds at / beyond the data type's own limits (infinite for floats)
+        if rng.chance(1, 10) {
+            raw[0] = f64::NEG_INFINITY;
+        }
+        if rng.chance(1, 10) {
+            raw[1] = f64::INFINITY;
+        }
+        if rng.chance(1, 40) {
+            raw[2] = if rng.bool() { f64::INFINITY } else { f64::NEG_INFINITY };
+        }
         let mk: fn(f64) -> $t = $mk;
         let (mut lo, mut hi) = (mk(raw[0]), mk(raw[1]));
         if lo > hi {
@@ -86,8 +96,13 @@ macro_rules! numtype {
                 // literal exactly on / next to a bound
                 let b = if rng.bool() { raw[0].min(raw[1]) } else { raw[0].max(raw[1]) };
                 let d = *rng.pick(&[0.0, 0.25, -0.25, 1.0, -1.0, 0.001, -0.001]);
-                on_bound = format!("{}", b + d);
-                Token::DecimalNumericProgramData(on_bound.as_bytes())
+                if b.is_finite() {
+                    on_bound = format!("{}", b + d);
+                    Token::DecimalNumericProgramData(on_bound.as_bytes())
+                } else {
+                    // an infinite bound is reached by the keyword of the underlying type (not a numeric_value keyword)
+                    Token::CharacterProgramData(if b > 0.0 { b"INF" } else { b"NINF" })
+                }
             }
             // keyword words carried by another element type are not keywords
             7 if rng.chance(1, 2) => *rng.pick(&[Token::StringProgramData(b"MAX"), Token::StringProgramData(b"minimum"), Token::StringProgramData(b"DEFault"), Token::StringProgramData(b"UP"), Token::StringProgramData(b"down"), Token::ArbitraryBlockData(b"MAX"), Token::ArbitraryBlockData(b"DEF"), Token::ExpressionProgramData(b"MIN"), Token::ExpressionProgramData(b"UP"), Token::DecimalNumericSuffixProgramData(b"1", b"MAX")]),
@@ -179,6 +194,11 @@ macro_rules! numtype {
                 ("min-then-max", v.build().min(lo).max(hi).finish(), lo, hi),
             ];
             for (vname, got, l, h) in variants.iter() {
+                if *l > *h {
+                    // one configured bound beyond the type limit that stands in for the other: min > max is outside the quantifier
+                    ctx.count("resolve.builder.skipped(inverted bounds)");
+                    continue;
+                }
                 let w = want_for(*l, *h);
                 ctx.count(&format!("resolve.builder.{}", vname));
                 if !same(got, &w) {
@@ -188,6 +208,21 @@ macro_rules! numtype {
                     if !(*x >= *l && *x <= *h) {
                         ctx.violation("C17:resolved-value-outside-bounds", detail(&format!("{:?} (builder {})", x, vname)));
                     }
+                }
+            }
+            // the builder's own constructor, and setters called again (a setter sets the bound: the last call counts)
+            let (lo2, hi2) = (mk(rng.range(-1000, 1000) as f64 / 4.0), mk(rng.range(-1000, 1000) as f64 / 4.0));
+            let again: [(&str, Result<$t, Error>); 4] = [
+                ("new", NumericBuilder::new(v, hi, lo).finish()),
+                ("new-then-setters", NumericBuilder::new(v, hi2, lo2).max(hi).min(lo).finish()),
+                ("setters-twice", v.build().max(hi2).min(lo2).max(hi).min(lo).finish()),
+                ("setters-twice-min-first", v.build().min(lo2).min(lo).max(hi2).max(hi).finish()),
+            ];
+            let w = want_for(lo, hi);
+            for (vname, got) in again.iter() {
+                ctx.count(&format!("resolve.builder.{}", vname));
+                if !same(got, &w) {
+                    ctx.violation(&format!("C17:resolution-differs:builder-{}:{}", vname, kind), detail(&format!("finish={:?} expected={:?} (first bounds {:?}..{:?})", got.as_ref().map_err(|e| e.get_code()), w, lo2, hi2)));
                 }
             }
             // the invariant of the statement, checked on its own
